@@ -25,8 +25,8 @@ class RunTooBig(Exception):
 
 
 MAX_ENTERS = 4000
-RD_KINDS = ("raise_after", "bad_var", "bad_entity", "bad_period", "add_divide", "bad_option")
-LEAVE_KINDS = ("raise", "bad_len", "bad_dtype", "bad_enum")
+RD_KINDS = ("raise_any", "raise_after", "bad_var", "bad_entity", "bad_period", "add_divide", "bad_option")
+LEAVE_KINDS = ("raise_any", "raise", "bad_len", "bad_dtype", "bad_enum")
 
 
 class Frame:
@@ -66,7 +66,7 @@ class Frame:
             elif kind == "bad_option":
                 options = ["LAGRANGIAN"]
             if kind != "raise_after":
-                ctx.fired.append((site, kind))
+                ctx.fired.append((site, kind))  # (raise_any fires here, raises after the read)
         rec = [var, period, opt, None, True]
         self.reads.append(rec)
         ent = getattr(call, "entity", None)
@@ -87,8 +87,9 @@ class Frame:
             # a *substituted default*: the read returned, yet nothing is stored
             # for (var, period) although the variable has a formula there
             rec.append(ctx.is_substituted(var, period))
-        if fault is not None and fault["kind"] == "raise_after":
-            ctx.fired.append((site, "raise_after"))
+        if fault is not None and fault["kind"] in ("raise_after", "raise_any"):
+            if fault["kind"] == "raise_after":
+                ctx.fired.append((site, "raise_after"))
             raise InjectedFault(site)
         return value
 
@@ -121,7 +122,7 @@ class Frame:
         if fault is not None:
             kind = fault["kind"]
             ctx.fired.append((site, kind))
-            if kind == "raise":
+            if kind in ("raise", "raise_any"):
                 raise InjectedFault(site)
             if kind == "bad_len":
                 result = numpy.zeros(ctx.count_of(self.var) + 1, dtype=numpy.float32)
@@ -170,7 +171,7 @@ class Ctx:
         self.frames = []
         self.kinds = []  # kind of every site, in order (for fault enumeration)
         self.depth = 0
-        self.stack = []
+        self.call_stack = []  # harness call tree (C17.trace), see sim.watch_calls
 
     def count_of(self, var):
         return self.counts.get(var, 1)
@@ -183,9 +184,11 @@ class Ctx:
             raise RunTooBig(var)
         frame = Frame(self, var, period, len(self.frames), self.depth)
         self.frames.append(frame)
+        if self.call_stack:
+            self.call_stack[-1]["frame"] = frame
         fault = self.plan.get(site)
-        if fault is not None and fault["kind"] == "raise":
-            self.fired.append((site, "raise"))
+        if fault is not None and fault["kind"] in ("raise", "raise_any"):
+            self.fired.append((site, fault["kind"]))
             raise InjectedFault(site)
         return frame
 
